@@ -345,6 +345,7 @@ func main() {
 		"any-enc/any-mut: random generic items through serde.MarshalCBOR[any] and damaged generic streams against serde.UnmarshalCBOR[any]. " +
 		"non-trivial = the stream passes the model's generic decoder (valid, mut) / is a distinct item (any)"
 	samples := buildSamples(a.Seed, a.Tier)
+	samples = append(samples, heavySamples(a.Seed, a.Tier)...)
 	if a.Driver == "" {
 		// no model driver given: list the samples and their implementation-side round trip
 		for _, s := range samples {
@@ -414,6 +415,24 @@ func genCases(a vh.Args, samples []Sample) []*tcase {
 		// types whose constructor does group arithmetic per decode: mutate only the first few samples
 		mutated[s.Type]++
 		if (expensive(s.Type) && mutated[s.Type] > maxExpensive) || mutated[s.Type] > maxPerType {
+			continue
+		}
+		if veryExpensive(s.Type) && a.Tier != "thorough" && !a.Search {
+			// one decode costs 50-500 ms (Paillier secret keys, known-order groups): only the
+			// top-level fields null / dropped
+			refs := collect(&tree)
+			cnt := 0
+			for ri, x := range refs {
+				if x.role != 'v' || strings.Count(x.path, "/") > 1 || cnt >= 3 {
+					continue
+				}
+				cnt++
+				root := tree.clone()
+				rr := collect(&root)
+				rr[ri].set(&node{kind: 's', n: 22})
+				m := mutation{Kind: "field-null", Path: x.path, Bytes: gencode(root)}
+				cases = append(cases, &tcase{class: "mut", sample: s, mut: m, stream: m.Bytes, sm: true})
+			}
 			continue
 		}
 		r := vh.NewRng(a.Seed, "C12", "mut/"+s.Type, i)
@@ -662,6 +681,17 @@ func elemCases(a vh.Args) []*tcase {
 // inherit its MarshalCBOR / UnmarshalCBOR).
 func isShard(typ string) bool {
 	return strings.HasPrefix(typ, "baseshard") || strings.HasPrefix(typ, "dkls23shard") || strings.HasPrefix(typ, "schnorrshard")
+}
+
+// veryExpensive: types whose decoder does modular exponentiations with 3072-bit moduli.
+func veryExpensive(typ string) bool {
+	for _, p := range []string{"lindell17", "cggmp21", "paillier-secretkey", "znstar-pailliergroup-known", "znstar-paillierelement-known",
+		"znstar-rsagroup-known", "znstar-rsaelement-known", "modular-oddprime", "intcom-trapdoorkey", "intcom-commitmentkey", "proof-nthroot"} {
+		if strings.HasPrefix(typ, p) {
+			return true
+		}
+	}
+	return false
 }
 
 func expensive(typ string) bool {
